@@ -37,6 +37,7 @@ def primOf : String → Option Ty
   -- floats travel as their IEEE bit patterns: encoding/binary writes Float32bits / Float64bits
   | "f32" => some .u32 | "f64" => some .u64
   -- two distinct Go struct types that share their name (harness: localRecA / localRecB)
+  | "blank" => some (.struct [.u8, .array 3 .u8, .u32, .i16, .u16, .array 2 .i8])
   | "recA" => some (.struct [.u32, .u32])
   | "recB" => some (.struct [.u16, .array 2 (.array 2 .u8)])
   | _ => none
